@@ -57,10 +57,19 @@ fn copy_tree(src: &Path, dst: &Path) {
 }
 
 #[derive(Clone, Copy, Debug, Eq, PartialEq)]
-pub enum Outcome { Updated, Current, StaleCopy, Unavailable }
+pub enum Outcome { Updated, Current, StaleCopy, Unavailable,
+    /// an expired copy that a Not Modified answer renewed, then a failed update
+    Renewed }
+
+/// How an RRDP update fails.
+#[derive(Clone, Copy, Debug, Eq, PartialEq)]
+pub enum Fail { Unreachable, Status500, Status404, Garbage,
+    /// a redirect to another origin, which the client does not follow
+    Redirect }
+const FAILS: [Fail; 5] = [Fail::Unreachable, Fail::Status500, Fail::Status404, Fail::Garbage, Fail::Redirect];
 
 #[derive(Clone, Debug)]
-pub struct Row { policy: FallbackPolicy, outcome: Outcome, rrdp_on: bool, rsync_on: bool, notify: bool }
+pub struct Row { policy: FallbackPolicy, outcome: Outcome, rrdp_on: bool, rsync_on: bool, notify: bool, fail: Fail }
 
 const HOST: &str = "ca.c29.example";
 const NOTIFY: &str = "https://rrdp.c29.example/r/notification.xml";
@@ -82,7 +91,7 @@ fn server_for(files: &std::collections::BTreeMap<String, Vec<u8>>) -> Server {
 fn run_row(
     dir: PathBuf, row: &Row, templates: &[PathBuf; 2],
     ca_rsync: &Arc<CaCert>, ca_rrdp: &Arc<CaCert>, files: &std::collections::BTreeMap<String, Vec<u8>>,
-    reachable: &Arc<Mutex<bool>>, http_log: &Arc<Mutex<Vec<String>>>,
+    reachable: &Arc<Mutex<Option<Fail>>>, http_log: &Arc<Mutex<Vec<String>>>,
 ) -> Result<String, (String, String)> {
     let case = Case::new(dir);
     // remote rsync content
@@ -93,19 +102,30 @@ fn run_row(
     }
     match row.outcome {
         Outcome::Current => copy_tree(&templates[0], &case.dir.join("cache")),
-        Outcome::StaleCopy => copy_tree(&templates[1], &case.dir.join("cache")),
+        Outcome::StaleCopy | Outcome::Renewed => copy_tree(&templates[1], &case.dir.join("cache")),
         _ => { }
     }
     let mut config = base_config(&case);
     config.rrdp_fallback = row.policy;
     config.disable_rrdp = !row.rrdp_on;
     config.disable_rsync = !row.rsync_on;
-    *reachable.lock().unwrap() = row.outcome == Outcome::Updated;
-    http_log.lock().unwrap().clear();
     let mut collector = Collector::new(&config).map_err(|_| ("harness".to_string(), "collector".to_string()))?;
     collector.ignite().map_err(|_| ("harness".to_string(), "ignite".to_string()))?;
-    let run = collector.start();
     let ca = if row.notify { ca_rrdp } else { ca_rsync };
+    if row.outcome == Outcome::Renewed && row.rrdp_on && row.notify {
+        // the server has nothing new: Not Modified, which renews the copy
+        *reachable.lock().unwrap() = None;
+        let run = collector.start();
+        match run.repository(ca) {
+            Ok(Some(r)) if r.is_rrdp() => { }
+            _ => return Err(("harness".into(), "renewing update did not use RRDP".into())),
+        }
+        drop(run);
+        if !case.rsync_log().is_empty() { return Err(("rsync-fetch".into(), format!("{row:?}: rsync invoked although the RRDP copy was confirmed by Not Modified"))) }
+    }
+    *reachable.lock().unwrap() = if row.outcome == Outcome::Updated { None } else { Some(row.fail) };
+    http_log.lock().unwrap().clear();
+    let run = collector.start();
     let repo = run.repository(ca).map_err(|_| ("run-failed".to_string(), format!("{row:?}: repository() failed")))?;
     let used = match repo.as_ref() {
         None => "none",
@@ -121,12 +141,13 @@ fn run_row(
     else {
         match row.outcome {
             Outcome::Updated => "rrdp",
-            Outcome::Current => "none",
+            Outcome::Current | Outcome::Renewed => "none",
             Outcome::StaleCopy => if row.policy == FallbackPolicy::Stale && row.rsync_on { "rsync" } else { "none" },
             Outcome::Unavailable => if row.policy != FallbackPolicy::Never && row.rsync_on { "rsync" } else { "none" },
         }
     };
-    let desc = format!("policy {}, RRDP outcome {:?}, RRDP {}, rsync {}, CA {} rpkiNotify", row.policy, row.outcome,
+    let desc = format!("policy {}, RRDP outcome {:?}{}, RRDP {}, rsync {}, CA {} rpkiNotify", row.policy, row.outcome,
+        if row.outcome == Outcome::Updated { String::new() } else { format!(" (failing by {:?})", row.fail) },
         if row.rrdp_on { "on" } else { "off" }, if row.rsync_on { "on" } else { "off" }, if row.notify { "with" } else { "without" });
     if used != expected {
         return Err((format!("wrong-transport:{expected}->{used}"), format!("{desc}: {used} used for the CA's objects, documented: {expected}")))
@@ -156,8 +177,12 @@ pub fn run_c29(ctx: &Ctx) -> Report {
     let mut rep = Report::new("exploration");
     rep.rule = "full product fallback policy {never, stale, new} x RRDP \
         outcome {updated, failed with current copy, failed with expired \
-        copy, failed without copy} x RRDP enabled/disabled x rsync \
-        enabled/disabled x CA with/without rpkiNotify = 96 rows on the \
+        copy, failed without copy, failed with an expired copy that a Not \
+        Modified answer had renewed one run earlier} x RRDP \
+        enabled/disabled x rsync enabled/disabled x CA with/without \
+        rpkiNotify, the failing rows in which RRDP is asked also x how the \
+        update fails {unreachable, 500, 404, garbage instead of the \
+        notification, redirect to another origin} on the \
         real collector::Run::repository with a real CA certificate; \
         current and expired copies are produced by real earlier updates \
         (refresh 600 s resp. 1 s plus a real 3 s wait) and copied per row; \
@@ -170,14 +195,20 @@ pub fn run_c29(ctx: &Ctx) -> Report {
     let _ = files;
     let files = files_rrdp;
     let server = Arc::new(Mutex::new(server_for(&files)));
-    let reachable = Arc::new(Mutex::new(true));
+    let reachable: Arc<Mutex<Option<Fail>>> = Arc::new(Mutex::new(None));
     let http_log = Arc::new(Mutex::new(Vec::new()));
     let _g = {
         let (server, reachable, log) = (server.clone(), reachable.clone(), http_log.clone());
         rrdpsrv::serve_host("rrdp.c29.example", Arc::new(move |uri, etag, _lm| {
             log.lock().unwrap().push(uri.to_string());
-            if !*reachable.lock().unwrap() { return Some(HttpAnswer::Unreachable) }
-            server.lock().unwrap().answer(uri, etag).map(HttpAnswer::Response)
+            match *reachable.lock().unwrap() {
+                None => server.lock().unwrap().answer(uri, etag).map(HttpAnswer::Response),
+                Some(Fail::Unreachable) => Some(HttpAnswer::Unreachable),
+                Some(Fail::Status500) => Some(HttpAnswer::Response(rrdpsrv::resp(500, vec![], b"oops".to_vec()))),
+                Some(Fail::Status404) => Some(HttpAnswer::Response(rrdpsrv::resp(404, vec![], b"not found".to_vec()))),
+                Some(Fail::Garbage) => Some(HttpAnswer::Response(rrdpsrv::resp(200, vec![], b"<notification this is not xml".to_vec()))),
+                Some(Fail::Redirect) => Some(HttpAnswer::Response(rrdpsrv::resp(302, vec![("Location".into(), "https://elsewhere.c29.example/r/notification.xml".into())], Vec::new()))),
+            }
         }))
     };
     // templates: a current and an expired local copy
@@ -203,9 +234,11 @@ pub fn run_c29(ctx: &Ctx) -> Report {
     templates = templates_ref;
     let mut rows = Vec::new();
     for policy in [FallbackPolicy::Never, FallbackPolicy::Stale, FallbackPolicy::New] {
-        for outcome in [Outcome::Updated, Outcome::Current, Outcome::StaleCopy, Outcome::Unavailable] {
+        for outcome in [Outcome::Updated, Outcome::Current, Outcome::StaleCopy, Outcome::Unavailable, Outcome::Renewed] {
             for rrdp_on in [true, false] { for rsync_on in [true, false] { for notify in [true, false] {
-                rows.push(Row { policy, outcome, rrdp_on, rsync_on, notify });
+                // how the update fails only matters where RRDP is asked at all
+                let fails: &[Fail] = if outcome != Outcome::Updated && rrdp_on && notify { &FAILS } else { &FAILS[..1] };
+                for fail in fails { rows.push(Row { policy, outcome, rrdp_on, rsync_on, notify, fail: *fail }); }
             }}}
         }
     }
@@ -220,8 +253,8 @@ pub fn run_c29(ctx: &Ctx) -> Report {
             Err((class, msg)) if class == "harness" => { eprintln!("machinery error: {msg}"); std::process::exit(2) }
             Err((class, msg)) => {
                 rep.outcome(format!("VIOLATION:{class}"));
-                rep.violation(format!("fallback:{class}:{}:{:?}", row.policy, row.outcome), msg,
-                    json!({"policy": row.policy.to_string(), "outcome": format!("{:?}", row.outcome), "rrdp_on": row.rrdp_on, "rsync_on": row.rsync_on, "notify": row.notify}));
+                rep.violation(format!("fallback:{class}:{}:{:?}{}", row.policy, row.outcome, if row.fail == Fail::Unreachable { String::new() } else { format!(":{:?}", row.fail) }), msg,
+                    json!({"policy": row.policy.to_string(), "outcome": format!("{:?}", row.outcome), "rrdp_on": row.rrdp_on, "rsync_on": row.rsync_on, "notify": row.notify, "fail": format!("{:?}", row.fail)}));
             }
         }
     }
